@@ -470,5 +470,6 @@ func runC15(c *core.Ctx) {
 	jobs, deaths := pool.Stats()
 	c.Count("l2_jobs", jobs)
 	c.Count("l2_process_deaths", deaths)
+	c.Count("l2_priming_runs", pool.Primed())
 	_ = big.NewRat
 }
